@@ -9,12 +9,13 @@ LEVEL = 'proof'
 TECHNIQUE = 'static analysis: value numbering of MIR def-use DAGs to non-commutative polynomial normal forms, compared with the documented residual identity (nothing executed)'
 RULES = {
     'C14.R1': 'residual identities r\'(x) = b\' - A\'x of translate / apply_pre / apply_post / rotate / intersection(_n) / distance_raw; contains = all(r >= -1e-8); distance divides row i of r by the norm of row i of A',
+    'C14.R3': 'axis_bounds / hyperrectangle / place_axis_bounds: finite lower bound -x <= -l, finite upper bound x <= u, infinite bound 0 <= 1, one pair of rows per axis',
     'C14.R2': 'constructors without data-dependent control: unbounded (0·x <= 1), empty (0·x <= -1), hypercube (stack(I, -I) <= radius)',
 }
-FLOORS = {'C14.R1': 9, 'C14.R2': 3}
+FLOORS = {'C14.R1': 9, 'C14.R2': 3, 'C14.R3': 3}
 EXPLANATION = ('With r(x) = b - Ax (membership: r(x) >= -1e-8 row-wise) each transformation\'s result (A\', b\') is compared, as a polynomial identity valid for all '
                'matrices, with the residual the documentation prescribes: translate r(x-d), apply_pre r(Mx+c), apply_post r(N(y-k)), rotate r(R^T y).')
-DOES_NOT_DECIDE = ('simplex, cross_polytope, hyperrectangle/axis_bounds (loops and is_infinite branches: out of fragment), from_normal (orientation not documented), '
+DOES_NOT_DECIDE = ('simplex, cross_polytope (loops over computed entries: out of fragment), from_normal (orientation not documented), '
                    'equality of images for non-invertible arguments, tolerance effects')
 TRUSTED = ['semantics of ndarray dot/+/-/neg/t/concatenate/eye/zeros/ones/from_elem as interpreted in affcheck/kernel.py']
 
@@ -65,6 +66,7 @@ def run(ctx):
     intersection_n(ctx, F)
     contains(ctx, F)
     distance(ctx, F)
+    axis_bounds(ctx, F)
     # constructors
     one = Poly.atom('𝟙')
     obligation(ctx, 'C14.R2', F, 'AffFuncBase::unbounded', lambda e: Aff(Poly.zero(), one), impl_filter=poly)
@@ -78,6 +80,74 @@ def run(ctx):
         okb = bias is not None and is_call(bias, 'ArrayBase::from_elem') and bias[2][1] == ('param', 'radius')
         (ctx.ok if okm and okb else ctx.bad)('C14.R2', 'AffFuncBase::hypercube', 'stack(I, -I) x <= radius (all rows)' if okm and okb else
                                              'hypercube is not stack(I, -I) <= radius: %s' % fmt(ret)[:200], b.span)
+
+
+def axis_bounds(ctx, F):
+    """place_axis_bounds: per bound one row; a finite lower bound l is -x_axis <= -l, a finite upper bound u is x_axis <= u,
+    an infinite bound is the tautology 0 <= 1; axis_bounds / hyperrectangle start from all-zero rows."""
+    from ..effects import assigns
+    b = ctx.body('C14.R3', 'AffFuncBase::place_axis_bounds')
+    if b is None:
+        return
+    R = Resolver(b)
+    IDX, AXIS = ('param', 'idx'), ('param', 'axis')
+    one = lambda e: is_call(e, 'One::one')
+    negone = lambda e: is_call(e, 'Neg::neg') and one(e[2][0])
+    rows = {}
+    for w in assigns(b, R):
+        tg = w.target
+        if not is_call(tg, 'IndexMut::index_mut'):
+            continue
+        arr, idx = tg[2]
+        lits = literals(b, R, w.bb)
+        inf = [(l[0], l[1][2][0]) for l in lits if is_call(l[1], 'Float::is_infinite')]
+        if len(inf) != 1:
+            continue
+        which = inf[0][1]
+        key = (fmt(which), inf[0][0] == 'true', fmt(arr))
+        rows[key] = (idx, w.value)
+    def row_is(idx, plus1):
+        if plus1:
+            x = idx[1] if (idx[0] == 'field' and idx[2] == '0') else idx
+            return x[0] == 'bin' and x[1].startswith('Add') and x[2] == IDX and x[3] == ('const', 1)
+        return idx == IDX
+    problems = []
+    for bound, plus1, coef_ok, bias_fin in (('lower', False, negone, lambda v: is_call(v, 'Neg::neg') and v[2][0] == ('param', 'lower')),
+                                             ('upper', True, one, lambda v: v == ('param', 'upper'))):
+        inf_b = rows.get((bound, True, 'bias'))
+        fin_m = rows.get((bound, False, 'mat'))
+        fin_b = rows.get((bound, False, 'bias'))
+        if not (inf_b and row_is(inf_b[0], plus1) and one(inf_b[1]) and (bound, True, 'mat') not in rows):
+            problems.append('infinite %s bound is not the tautology row 0 <= 1' % bound)
+        if not (fin_m and fin_m[0][0] == 'agg' and row_is(fin_m[0][2][0], plus1) and fin_m[0][2][1] == AXIS and coef_ok(fin_m[1])):
+            problems.append('finite %s bound does not put %s at [row, axis]' % (bound, '-1' if bound == 'lower' else '+1'))
+        if not (fin_b and row_is(fin_b[0], plus1) and bias_fin(fin_b[1])):
+            problems.append('finite %s bound does not use %s as right-hand side' % (bound, '-lower' if bound == 'lower' else 'upper'))
+    if problems:
+        for p_ in problems:
+            ctx.bad('C14.R3', 'AffFuncBase::place_axis_bounds#rows', p_, b.span)
+    else:
+        ctx.ok('C14.R3', 'AffFuncBase::place_axis_bounds#rows', 'row idx: -x_axis <= -lower (or 0 <= 1 if lower is infinite); row idx+1: x_axis <= upper (or 0 <= 1)', b.span)
+    for q, want in (('AffFuncBase::axis_bounds', 'single'), ('AffFuncBase::hyperrectangle', 'loop')):
+        c = ctx.body('C14.R3', q)
+        if c is None:
+            continue
+        Rc = Resolver(c)
+        calls_ = [(bb, Rc.call_args(bb)) for bb, t in c.calls_to('AffFuncBase::place_axis_bounds')]
+        rets = [e for _, e in Rc.return_expr()]
+        ok = len(calls_) == 1 and len(rets) == 1 and is_call(rets[0], 'AffFuncBase::from_mats')
+        if ok:
+            a = calls_[0][1]
+            ok = s(a[1]) == s(rets[0][2][0]) and s(a[2]) == s(rets[0][2][1]) and is_call(a[1], 'ArrayBase::zeros') and is_call(a[2], 'ArrayBase::zeros')
+            if want == 'single':
+                ok = ok and a[0] == ('const', 0) and a[3] == ('param', 'axis') and a[4] == ('param', 'lower_bound') and a[5] == ('param', 'upper_bound')
+            else:
+                item = [x for x in walk(a[3]) if is_call(x, 'Iterator::next')]
+                ok = ok and bool(item) and a[3] == ('field', item[0], '0') and a[4] == ('field', ('field', item[0], '1'), '0') and a[5] == ('field', ('field', item[0], '1'), '1')
+                r0 = a[0][1] if (a[0][0] == 'field' and a[0][2] == '0') else a[0]
+                ok = ok and r0[0] == 'bin' and r0[1].startswith('Mul') and r0[2] == ('const', 2) and r0[3] == a[3]
+        (ctx.ok if ok else ctx.bad)('C14.R3', q, 'all-zero system + place_axis_bounds(%s)' % ('row 0, axis, lower, upper' if want == 'single' else 'row 2i, axis i, interval i for every i') if ok else
+                                    '%s does not place the bounds of each axis on its own pair of rows of an all-zero system' % q, c.span)
 
 
 def intersection_n(ctx, F):
@@ -160,6 +230,14 @@ def distance(ctx, F):
             if Callee(t['func']).name == 'div_assign' and any(x == ('upvar', 'norm') for x in walk(Rc.call_args(bb)[1])):
                 div_ok = True
     sqrt = any(Callee(t['func']).name == 'sqrt' for bb, t in b.calls())
+    # the division is applied to every row: the call that scales a row is not control-dependent on anything but the loop itself
+    # (signed infinity for all-zero rows comes from IEEE division: +inf for 0 <= b, -inf for 0 <= -b)
+    uncond = False
+    for bb, t in b.calls():
+        if Callee(t['func']).name == 'map_inplace':
+            lits = [l for l in literals(b, R, bb) if not (l[0] == 'is' and is_call(l[1], 'Iterator::next'))]
+            uncond = not lits
+    div_ok = div_ok and uncond
     if ok and okz and norm_ok and div_ok and sqrt:
         ctx.ok('C14.R1', 'AffFuncBase::distance', 'row i of b - A·p divided by sqrt(sum of squares of row i of A)', b.span)
     else:
